@@ -26,6 +26,15 @@ extern "C" void draco_verif_declare(int kind, uint64_t n) {
   sim::AllocDeclare(kind, n);
 }
 
+extern "C" {
+int sim_canary_heap_overflow(int n);
+int sim_canary_unjustified_alloc();
+int sim_canary_stable_loop();
+int sim_canary_long_finite_loop();
+int sim_canary_declared_alloc();
+uint64_t sim_canary_uninit_read();
+}
+
 namespace sim {
 
 const char *EntryName(int e) {
@@ -160,6 +169,21 @@ __attribute__((noinline)) void DoCall(int entry, const char *data, size_t len,
       set_status(dec.Decode(opts, &buffer, anim));
       break;
     }
+    case 101:
+      r->digest = static_cast<uint64_t>(sim_canary_heap_overflow(16));
+      break;
+    case 102:
+      r->digest = static_cast<uint64_t>(sim_canary_unjustified_alloc());
+      break;
+    case 103:
+      r->digest = static_cast<uint64_t>(sim_canary_stable_loop());
+      break;
+    case 104:
+      r->digest = static_cast<uint64_t>(sim_canary_long_finite_loop());
+      break;
+    case 105:
+      r->digest = static_cast<uint64_t>(sim_canary_declared_alloc());
+      break;
     default:
       break;
   }
@@ -1448,6 +1472,103 @@ int ChanBatch(const ChanOptions &opt) {
   summary["num_guards"] = static_cast<unsigned long long>(StepsNumGuards());
   WriteFile(opt.out_path, summary.Dump());
   return 0;
+}
+
+// Canaries: see canary_chan.cc. Each runs in its own pool worker through the
+// same RunEntry seams as a decoder call.
+int ChanCanary(const ChanOptions &opt) {
+  struct Exp {
+    int entry;
+    const char *name;
+    const char *expect;
+  };
+  static const Exp exps[] = {
+      {101, "heap_overflow_read", "death:asan:heap-buffer-overflow"},
+      {102, "unjustified_1GiB_request", "refused_outside_bound+bound_violation"},
+      {103, "state_stable_infinite_loop", "nontermination_recurrence"},
+      {104, "negative:long_finite_loop", "undecided_budget"},
+      {105, "negative:declared_512MiB_request", "tolerated_alloc_failure"},
+      {106, "uninitialised_heap_read", "differs_between_environments"},
+  };
+  const int n = sizeof(exps) / sizeof(exps[0]);
+  std::map<uint64_t, std::string> got;
+  PoolCallbacks cb;
+  cb.run = [&](uint64_t i, std::string *out) {
+    std::string g;
+    if (exps[i].entry == 106) {
+      AllocConfig a0;
+      a0.perturb = true;
+      a0.fill_mode = 1;
+      a0.pad = false;
+      AllocBegin(a0);
+      const uint64_t v0 = sim_canary_uninit_read();
+      AllocEnd(false);
+      AllocConfig a1;
+      a1.perturb = true;
+      a1.fill_mode = 3;
+      AllocBegin(a1);
+      const uint64_t v1 = sim_canary_uninit_read();
+      AllocEnd(false);
+      g = v0 != v1 ? "differs_between_environments" : "same_in_all_environments";
+    } else {
+      CallConfig c;
+      c.budget_bytes = 64ull << 20;
+      c.step_budget = 20000000ull;
+      c.lasso_steps = 20000000ull;
+      std::vector<uint8_t> bytes(32, 0);
+      CallResult r = RunEntry(exps[i].entry, bytes, c);
+      g = OutcomeName(r.outcome);
+      if (r.alloc.viol_kind) g += "+bound_violation";
+    }
+    *out += std::to_string(i) + " " + g + "\n";
+  };
+  cb.on_line = [&](const std::string &line) {
+    size_t sp = line.find(' ');
+    if (sp == std::string::npos) return;
+    got[strtoull(line.c_str(), nullptr, 10)] = line.substr(sp + 1);
+  };
+  cb.on_death = [&](const PoolDeath &d) {
+    std::string sig, excerpt;
+    std::string cls = ClassifyDeath(d, &sig, &excerpt);
+    got[d.idx] = "death:" + cls;
+  };
+  PoolOptions po;
+  po.workers = 1;
+  po.begin = 0;
+  po.end = n;
+  po.log_dir = opt.log_dir;
+  po.head = n;
+  RunPool(po, cb);
+  Json arr = Json::Array();
+  bool all_ok = true;
+#if defined(__has_feature)
+#if __has_feature(address_sanitizer)
+  const bool have_asan = true;
+#else
+  const bool have_asan = false;
+#endif
+#else
+  const bool have_asan = false;
+#endif
+  for (int i = 0; i < n; ++i) {
+    Json e = Json::Object();
+    e["canary"] = exps[i].name;
+    e["expected"] = exps[i].expect;
+    e["got"] = got.count(i) ? got[i] : "missing";
+    bool ok = got.count(i) && got[i] == exps[i].expect;
+    if (exps[i].entry == 101 && !have_asan) {
+      ok = true;  // no ASan in this build: the canary cannot be seen here
+      e["skipped"] = "build has no AddressSanitizer";
+    }
+    e["ok"] = ok;
+    if (!ok) all_ok = false;
+    arr.push(e);
+  }
+  Json out = Json::Object();
+  out["canaries"] = arr;
+  out["all_ok"] = all_ok;
+  WriteFile(opt.out_path, out.Dump());
+  return all_ok ? 0 : 3;
 }
 
 int ChanPlanOf(const ChanOptions &opt, const std::string &idxs) {
